@@ -98,6 +98,9 @@ int chunk_capacity(); // largest chunk (bytes) this build supports
 OpOut encrypt(const bytes &plain, const bytes &key, const bytes &seed, int cmode, int hmode, const PipeCfg &pc);
 OpOut decrypt(const bytes &file, const bytes &key, const PipeCfg &pc);
 OpOut verify(const bytes &file, const bytes &key, const PipeCfg &pc, bool with_out);
+// Several verifications of `file` at the same time, one real thread per key (each with its own stream and runcrypt object),
+// `reps` rounds each, no scheduler involved; returns how many of each key's verifications reported success
+std::vector<int> verify_concurrent(const bytes &file, const std::vector<bytes> &keys, int T, int chunk, int refill_units, int reps);
 
 // pipeline alone with recorder streams (C03 / C14 level 2)
 struct RecCall
